@@ -225,6 +225,11 @@ pub fn check(c: &Case) -> CheckResult {
     o.class_if(matches!(mode, 1 | 2 | 5 | 6 | 7 | 10), "erasing-mode");
     o.class_if(!c.clips.is_empty(), "clipped");
     o.class_if(c.w > 256 || c.h > 256, "surface-beyond-256");
+    {
+        let far_in = |p: &PathSpec| p.points().iter().any(|q| q.0.abs() > 2000.0 || q.1.abs() > 2000.0);
+        let f = matches!(&c.draw, Op::Fill(p, ..) if far_in(p)) || c.clips.iter().any(|cl| matches!(cl, Op::PushClipPath(p) if far_in(p)));
+        o.class_if(f, "polygon-with-a-vertex-beyond-2000px");
+    }
     o.class_if(c.clips.iter().any(|c| matches!(c, Op::PushClipPath(_))), "clip-path");
     o.class(classify_xf(&c.xf));
     Ok(o)
@@ -259,7 +264,39 @@ pub fn strategy(ctx: &Ctx) -> BoxedStrategy<Case> {
             let xf = prop_oneof![4 => Just(IDENT), 2 => xf_qtrans(), 3 => xf_invertible(4.0), 1 => xf_singular()];
             (Just((w, h)), init_pixels(w, h), xf, prop::collection::vec(clip, 0..=3), prop::option::weighted(0.2, (alpha_f().prop_map(Fl), blend_biased())), draw, (0u8..3, 0usize..6))
         })
-        .prop_map(|((w, h), init, xf, clips, layer, draw, (sel, k))| {
+        .prop_map(|((w, h), init, xf, mut clips, layer, mut draw, (sel, k))| {
+            // far vertices: under the identity or a quarter translation, one polygon in five (fill or clip path,
+            // quarter-grid vertices) gets one vertex moved 2048..3000 px off the surface: its edges are thousands of
+            // pixels wide and tall, the shape on the surface is still known exactly from the 4x4 model
+            if is_qtrans(&xf) {
+                let far = |p: &mut PathSpec, salt: usize| {
+                    let n = p.ops.len();
+                    if n == 0 || !crate::raster4::on_quarter_grid(p) || (k + salt + n) % 5 != 0 {
+                        return;
+                    }
+                    let d = 2048.0 + ((k * 37 + salt * 11 + n * 5) % 953) as f32;
+                    let i = (k + salt) % n;
+                    let (dx, dy) = match (k + salt + n) % 4 {
+                        0 => (-d, -d * 0.75),
+                        1 => (d, -d),
+                        2 => (-d * 0.5, d),
+                        _ => (d, d * 0.25),
+                    };
+                    let q = |v: f32| (v * 4.0).round() / 4.0;
+                    if let POp::M(x, y) | POp::L(x, y) = &mut p.ops[i] {
+                        *x = q(*x + dx);
+                        *y = q(*y + dy);
+                    }
+                };
+                if let Op::Fill(p, ..) = &mut draw {
+                    far(p, 1);
+                }
+                for (j, cl) in clips.iter_mut().enumerate() {
+                    if let Op::PushClipPath(p) = cl {
+                        far(p, 2 + j);
+                    }
+                }
+            }
             // one layer case in three pops some or all of its clips before the layer
             let early_pop = if layer.is_some() && !clips.is_empty() && sel == 0 { 1 + (k % clips.len()) as u8 } else { 0 };
             Case { w, h, init, xf, clips, layer, draw, early_pop }
